@@ -69,7 +69,9 @@ type c15Case struct {
 
 func (c *Ctx) c15Value(s *Sub, sub string, v c15Case, enum bool) {
 	P := bn.KwPrint
-	src := P + " " + v.expr + ";\n" + P + " \"\" + " + v.expr + ";\n" + P + " \"p\" + " + v.expr + ";\n" + P + " [" + v.expr + "];\n" + P + " {k: " + v.expr + "};\n" +
+	src := P + " " + v.expr + ";\n" + P + " \"\" + " + v.expr + ";\n" + P + " \"p\" + " + v.expr + ";\n" +
+		P + " " + v.expr + " + \"\";\n" + P + " " + v.expr + " + \"s\";\n" + P + " \"p\" + " + v.expr + " + \"s\";\n" +
+		P + " [" + v.expr + "];\n" + P + " {k: " + v.expr + "};\n" +
 		P + " [1, [" + v.expr + ", 2]];\n" + P + " \"end\";\n"
 	if v.fixed != "" {
 		// nil / booleans: + is not defined for them
@@ -117,8 +119,8 @@ func (c *Ctx) c15Value(s *Sub, sub string, v c15Case, enum bool) {
 		}
 	case v.isNum:
 		ln := strings.Split(strings.TrimSuffix(body, "\n"), "\n")
-		if len(ln) != 6 {
-			fail("newline", fmt.Sprintf("expected 6 lines (one newline per দেখাও), got %d", len(ln)))
+		if len(ln) != 9 {
+			fail("newline", fmt.Sprintf("expected 9 lines (one newline per দেখাও), got %d", len(ln)))
 		}
 		if v.exact != nil {
 			r2, ok := new(big.Rat).SetString(ln[0])
@@ -138,7 +140,17 @@ func (c *Ctx) c15Value(s *Sub, sub string, v c15Case, enum bool) {
 		if ln[2] != "p"+ln[0] {
 			fail("concat", fmt.Sprintf("\"p\" + v printed %q but v printed %q", ln[2], ln[0]))
 		}
-		for _, cl := range ln[3:] {
+		// the number as the left operand of +, and between two strings
+		if ln[3] != ln[0] {
+			fail("concat", fmt.Sprintf("v + \"\" printed %q but v printed %q", ln[3], ln[0]))
+		}
+		if ln[4] != ln[0]+"s" {
+			fail("concat", fmt.Sprintf("v + \"s\" printed %q but v printed %q", ln[4], ln[0]))
+		}
+		if ln[5] != "p"+ln[0]+"s" {
+			fail("concat", fmt.Sprintf("\"p\" + v + \"s\" printed %q but v printed %q", ln[5], ln[0]))
+		}
+		for _, cl := range ln[6:] {
 			found := false
 			for _, tok := range strings.Fields(strings.NewReplacer("map[", " ", "[", " ", "]", " ", "{", " ", "}", " ", ",", " ", "k:", " ").Replace(cl)) {
 				if v.exact != nil {
@@ -183,8 +195,16 @@ func (c *Ctx) c15Value(s *Sub, sub string, v c15Case, enum bool) {
 				fail("concat", "\"p\" + v does not print p followed by what v prints")
 			}
 		}
+		rest = rest[len(pl):]
+		for _, w := range []string{v.str, v.str + "s", "p" + v.str + "s"} {
+			wl := norm.NFC.String(w) + "\n"
+			if !strings.HasPrefix(rest, wl) {
+				fail("concat", fmt.Sprintf("v as the left operand of +: expected %q, output continues %q", wl, clip(rest, 80)))
+			}
+			rest = rest[len(wl):]
+		}
 		// containers: three lines, each containing NFC(v)
-		cont := rest[len(pl):]
+		cont := rest
 		if want != "" && strings.Count(cont, want) < 3 {
 			fail("container", fmt.Sprintf("the string inside arrays/objects is not shown as its characters: %q", clip(cont, 300)))
 		}
